@@ -175,6 +175,16 @@ func renderObsProcs(sc *Scenario, meta *c20Meta) {
 					q = fmt.Sprintf("ALTER TABLE %s SET ENCLOSE_ALL TO FALSE;", t)
 				case 4:
 					q = fmt.Sprintf("ALTER TABLE %s SET LINE_BREAK TO LF;", t)
+				case 5:
+					// FOR UPDATE holds every table the statement reads, whichever side of a set operator names it
+					q = fmt.Sprintf("SELECT k, k FROM one EXCEPT SELECT id, n FROM %s FOR UPDATE;", t)
+				case 6:
+					q = fmt.Sprintf("SELECT id, n FROM %s WHERE id < 0 UNION SELECT id, n FROM %s FOR UPDATE;", t, t)
+				case 7:
+					q = fmt.Sprintf("SELECT k, k FROM one INTERSECT ALL SELECT id, n FROM %s FOR UPDATE;", t)
+				case 8:
+					// ... and however the table is spelled (a file: URL is a local file)
+					q = fmt.Sprintf("SELECT COUNT(*) FROM file:./%s.csv FOR UPDATE;", t)
 				}
 				s = append(s, fmt.Sprintf("ECHO '@W %d';", i), q)
 			case "fail":
@@ -284,7 +294,7 @@ func (c20) Gen(seed uint64, tier string) *Scenario {
 					if r.Bool(0.7) {
 						ops = append(ops, ObsOp{Kind: "touch", Table: tb, Form: r.Pick(0, 1, 2, 3, 4, 5, 6, 7, 8, 9, 10, 11, 12, 13, 14, 15, 16, 17, 13, 14, 18, 19)})
 					} else {
-						ops = append(ops, ObsOp{Kind: "noop", Table: tb, Form: r.Intn(5)})
+						ops = append(ops, ObsOp{Kind: "noop", Table: tb, Form: r.Intn(9)})
 					}
 				case 4:
 					ops = append(ops, ObsOp{Kind: "selfu", Table: tb, Form: r.Pick(0, 0, 1)})
